@@ -702,6 +702,11 @@ def near_miss(key, rng):
     if not key:
         return "x"
     ops = [key.upper(), key.lower(), key + "s", key[:-1], key[0] + key, key.replace("_", ""), key.capitalize(), key[1:] + key[:1]]
+    # multi-byte typos: one edit each in characters, several bytes each (the typo budget counts bytes of the received string,
+    # the distance counts characters)
+    if len(key) >= 3:
+        ops += [key[:1] + "\U0001f600" + key[2:], key[:1] + "\U0001f600\U0001f600" + key[3:], key[:2] + "\u20ac" + key[2:], key[:-1] + "\u00e9",
+                key[:1] + "\U0001f600" + key[1:] + "\U0001f600", key + "\u20ac\u20ac"]
     ops = [o for o in ops if o != key]
     return rng.choice(ops) if ops else key + "x"
 
@@ -834,6 +839,25 @@ def gen_payloads(entry, rng, n, max_faults=3):
             drops = rng.sample(drops, 8)
         for q in drops:
             out.append((q, 1))
+    # near-misses made of multi-byte characters (did-you-mean: the budget counts bytes, the distance characters)
+    if entry.ty[0] == "item":
+        it = entry.ty[1]
+        names = []
+        if it.kind == "struct":
+            names = [k for _, k in field_keys(it.fields, item_ra(it))]
+        elif it.kind == "enum":
+            names = [variant_key(it, v) for v in it.variants]
+        for nm in [n for n in names if len(n) >= 5][:2]:
+            for typo in (nm[:1] + "\U0001f600\U0001f600" + nm[3:], nm[:2] + "\u20ac\u20ac\u20ac" + nm[5:], nm + "\U0001f600"):
+                base = gen_valid(entry.ty, rng)
+                if it.kind == "struct" and isinstance(base, dict) and "m" in base:
+                    base["m"].insert(rng.randint(0, len(base["m"])), [typo, None])
+                    out.append((base, 1))
+                elif it.kind == "enum" and it.get("tag") is None:
+                    out.append((typo, 1))
+                elif it.kind == "enum" and isinstance(base, dict) and "m" in base:
+                    base["m"] = [[k, (typo if k == it.get("tag")[1] else v)] for k, v in base["m"]]
+                    out.append((base, 1))
     # fault families that random mutation reaches too rarely
     if contains_json(entry.ty):
         # serde_json::Value positions: their only faults are non-finite floats (order-preserving source only)
